@@ -445,8 +445,16 @@ func decodeOXM(r *R) (*rec.Rec, error) {
 	fb := r.U8()
 	l := int(r.U8())
 	field, hm := fb>>1, fb&1 == 1
+	expID := uint32(0)
 	if class == ClassExp {
-		return nil, errf("oxm.experimenter", "experimenter-class OXM is not modelled")
+		if l < 4 || r.Left() < 4 {
+			return nil, errf("oxm.experimenter", "experimenter-class OXM of length %d has no room for the experimenter id", l)
+		}
+		expID = r.U32()
+		l -= 4
+		if expID != ONFVendor {
+			return nil, errf("oxm.experimenter", "experimenter id %#x is not modelled", expID)
+		}
 	}
 	ref := OXMByCode(class, field)
 	if ref == nil {
@@ -477,6 +485,9 @@ func decodeOXM(r *R) (*rec.Rec, error) {
 		return nil, errf("oxm.length", "%s: payload length %d, want %d (width %d, mask %v)", ref.Name, l, want, w, hm)
 	}
 	f := rec.New("mf").Set("class", uint64(class)).Set("field", uint64(field)).SetBool("hasmask", hm)
+	if class == ClassExp {
+		f.Set("experimenter", uint64(expID))
+	}
 	f.SetB("value", payload[:w])
 	if hm {
 		f.SetB("mask", payload[w:])
